@@ -83,6 +83,16 @@ def _append_of(s: ast.stmt, x: str, kind: str) -> Optional[ast.AST]:
     return None
 
 
+_VALUE_CALLS = {'Position', 'Area', 'Shape', 'len', 'isinstance', 'abs', 'min', 'max', 'int',
+                'float', 'bool', 'tuple', 'type', 'round'}
+
+
+def _value_call(c: ast.Call) -> bool:
+    """a call whose result is a plain value (frozen dataclass of the library, builtin
+    scalar): evaluating it twice is the same as evaluating it once"""
+    return isinstance(c.func, ast.Name) and c.func.id in _VALUE_CALLS and not c.keywords
+
+
 def _reduce_body(body: List[ast.stmt], x: str, kind: str):
     """(element, [conditions], locals) or None"""
     mp: Dict[str, ast.AST] = {}
@@ -97,8 +107,23 @@ def _reduce_body(body: List[ast.stmt], x: str, kind: str):
         return out
 
     early: List[Tuple[ast.AST, ast.AST]] = []     # `if C: X.append(A); continue` steps
+    # `if C: <locals>; <more>` as the last statement continues the same sequence under C
+    body = list(body)
+    while body and isinstance(body[-1], ast.If) and not body[-1].orelse and \
+            len(body[-1].body) > 1 and x not in _names(body[-1].test) and \
+            not any(isinstance(n, ast.Continue) for n in ast.walk(body[-1])):
+        tail = body[-1]
+        marker = ast.copy_location(ast.Expr(ast.Call(ast.Name('__COND__', ast.Load()),
+                                                     [tail.test], [])), tail)
+        body = body[:-1] + [marker] + list(tail.body)
     for i, s in enumerate(body):
         last = i == len(body) - 1
+        if isinstance(s, ast.Expr) and isinstance(s.value, ast.Call) and \
+                isinstance(s.value.func, ast.Name) and s.value.func.id == '__COND__':
+            if early:
+                return None
+            conds.append(sub(s.value.args[0]))
+            continue
         if isinstance(s, ast.Expr) and isinstance(s.value, ast.Constant):
             continue
         if isinstance(s, ast.If) and not s.orelse and len(s.body) == 2 and not last and \
@@ -109,6 +134,19 @@ def _reduce_body(body: List[ast.stmt], x: str, kind: str):
             early.append((sub(s.test), sub(a_)))
             continue
         if isinstance(s, ast.Pass):
+            continue
+        if isinstance(s, ast.Assign) and not last and len(s.targets) == 1 and \
+                isinstance(s.targets[0], ast.Tuple) and isinstance(s.value, ast.Tuple) and \
+                len(s.targets[0].elts) == len(s.value.elts) and \
+                all(isinstance(t, ast.Name) for t in s.targets[0].elts):
+            # a, b = (e1, e2): both right-hand sides are read before either name is bound
+            names_ = [t.id for t in s.targets[0].elts]
+            if x in _names(s.value) or any(n_ == x or n_ in mp for n_ in names_) or \
+                    len(set(names_)) != len(names_):
+                return None
+            vals_ = [sub(v) for v in s.value.elts]
+            for n_, v_ in zip(names_, vals_):
+                mp[n_] = v_
             continue
         if isinstance(s, (ast.Assign, ast.AnnAssign)) and not last:
             tg = s.targets[0] if isinstance(s, ast.Assign) and len(s.targets) == 1 else \
@@ -163,7 +201,8 @@ def _reduce_body(body: List[ast.stmt], x: str, kind: str):
             for c_, a_ in reversed(early):
                 elt = ast.IfExp(c_, a_, elt)
             for n, c in used_calls.items():
-                if c > 1 and any(isinstance(k, ast.Call) for k in ast.walk(mp[n])):
+                if c > 1 and any(isinstance(k, ast.Call) and not _value_call(k)
+                                 for k in ast.walk(mp[n])):
                     return None
             return elt, conds, set(mp)
         return None
@@ -309,6 +348,21 @@ class _Norm:
                     for n in ast.walk(st):
                         if isinstance(n, ast.Name) and n.id in tn:
                             shadowed.add(id(n))
+            if isinstance(other, ast.For) and other is not loop:
+                # a name assigned by a plain top-level statement of another loop's body is
+                # re-bound in every iteration before the later statements of that body read it
+                bound_here: Set[str] = set()
+                for st in other.body:
+                    if bound_here:
+                        value_side = st.value if isinstance(st, (ast.Assign, ast.AnnAssign)) \
+                            and getattr(st, 'value', None) is not None else st
+                        for n in ast.walk(value_side):
+                            if isinstance(n, ast.Name) and n.id in bound_here and \
+                                    isinstance(n.ctx, ast.Load):
+                                shadowed.add(id(n))
+                    if isinstance(st, ast.Assign) and len(st.targets) == 1:
+                        # the right-hand side is evaluated before the names are bound
+                        bound_here |= _targets(st.targets[0])
             if isinstance(other, (ast.ListComp, ast.SetComp, ast.GeneratorExp, ast.DictComp)):
                 tn = set()
                 for g in other.generators:
@@ -329,7 +383,7 @@ class _Norm:
                 return None
         red = _reduce_body(loop.body, x, kind)
         if red is None:
-            return None
+            return self._nested(loop, x, kind)
         elt, conds, locs = red
         # loop targets and body locals die with the loop (flow-insensitive: never read outside)
         if (_targets(loop.target) | locs) & self._loads_outside(loop):
@@ -349,6 +403,94 @@ class _Norm:
         else:
             node = ast.ListComp(elt, [gen]) if kind == 'list' else ast.SetComp(elt, [gen])
         return ast.copy_location(node, loop)
+
+
+def _reduce_prefix(body: List[ast.stmt], x: str):
+    """(locals, conditions) of the statements before an inner loop: plain / parallel local
+    assignments and `if C: continue` filters; None for anything else"""
+    mp: Dict[str, ast.AST] = {}
+    conds: List[ast.AST] = []
+    counts: Dict[str, int] = {}
+
+    def sub(e: ast.AST) -> ast.AST:
+        st = _Subst(mp)
+        out = st.visit(copy.deepcopy(e))
+        for n, c in st.count.items():
+            counts[n] = counts.get(n, 0) + c
+        return out
+    for s in body:
+        if isinstance(s, ast.Expr) and isinstance(s.value, ast.Constant):
+            continue
+        if isinstance(s, ast.Assign) and len(s.targets) == 1:
+            t = s.targets[0]
+            if x in _names(s.value):
+                return None
+            if isinstance(t, ast.Name) and t.id != x and t.id not in mp:
+                mp[t.id] = sub(s.value)
+                continue
+            if isinstance(t, ast.Tuple) and isinstance(s.value, ast.Tuple) and \
+                    len(t.elts) == len(s.value.elts) and \
+                    all(isinstance(e_, ast.Name) and e_.id != x and e_.id not in mp
+                        for e_ in t.elts) and len({e_.id for e_ in t.elts}) == len(t.elts):
+                vals = [sub(v) for v in s.value.elts]
+                for e_, v in zip(t.elts, vals):
+                    mp[e_.id] = v
+                continue
+            return None
+        if isinstance(s, ast.If) and not s.orelse and len(s.body) == 1 and \
+                isinstance(s.body[0], ast.Continue) and x not in _names(s.test):
+            conds.append(ast.UnaryOp(ast.Not(), sub(s.test)))
+            continue
+        return None
+    return mp, conds, counts
+
+
+def _nested(self, loop: ast.For, x: str, kind: str):
+    """for A in IA: [locals / continue-filters]; for B in IB: ... X.append(E)
+    ==>  [E for A in IA if filters for B in IB if ...] with the locals substituted"""
+    if kind not in ('list', 'set') or not loop.body or not isinstance(loop.body[-1], ast.For):
+        return None
+    pre = _reduce_prefix(loop.body[:-1], x)
+    if pre is None:
+        return None
+    mp, conds, counts = pre
+    inner_loop = loop.body[-1]
+    if x in _names(inner_loop.iter):
+        return None
+    inner = self.loop(inner_loop, x, kind)
+    if inner is None:
+        return None
+    st = _Subst(mp)
+    inner2 = st.visit(copy.deepcopy(inner))
+    for n, c in st.count.items():
+        counts[n] = counts.get(n, 0) + c
+    # a local holding a call is evaluated once per outer iteration in the loop, once per
+    # use in the comprehension: substitute only values without calls, or used once -- except
+    # plain subscripts / attribute reads, which are pure here
+    for n, c in counts.items():
+        if c > 1 and any(isinstance(k, ast.Call) and not _value_call(k)
+                         for k in ast.walk(mp[n])):
+            return None
+    if (_targets(loop.target) | set(mp)) & self._loads_outside(loop):
+        return None
+    # names bound by the inner generators must not be captured by substituted values
+    bound_inner = set()
+    for g in inner2.generators:
+        bound_inner |= _targets(g.target)
+    free_vals = set()
+    for v in mp.values():
+        free_vals |= _names(v)
+    if bound_inner & (free_vals | _targets(loop.target)):
+        return None
+    conds = [nnf(_simplify_not(c)) for c in conds]
+    if len(conds) > 1:
+        conds = [ast.BoolOp(ast.And(), conds)]
+    g0 = ast.comprehension(copy.deepcopy(loop.target), copy.deepcopy(loop.iter), conds, 0)
+    node = type(inner2)(inner2.elt, [g0] + list(inner2.generators))
+    return ast.copy_location(node, loop)
+
+
+_Norm._nested = _nested
 
 
 def normalise_function(fn: ast.FunctionDef) -> ast.FunctionDef:
